@@ -148,7 +148,11 @@ def main():
                     'code and traces recorded from the real code validated by TLC'),
                dict(name='extension:monitors', path='/verif/checks/x01.py', serves_properties=[],
                     kind_free_text='specification coverage beyond the listed properties: specs/Monitor.tla + Monitor_trace.tla '
-                    '(openhtf.core.monitors); ./check X01 --tier quick|thorough; evidence in evidence_extra/X01.json')],
+                    '(openhtf.core.monitors); ./check X01 --tier quick|thorough; evidence in evidence_extra/X01.json'),
+               dict(name='extension:retry-helpers', path='/verif/checks/x02.py', serves_properties=[],
+                    kind_free_text='specification coverage beyond the listed properties: specs/Retry.tla '
+                    '(openhtf.util.timeouts loop_until_timeout_or_valid / retry_until_valid_or_limit_reached); '
+                    './check X02; evidence in evidence_extra/X02.json')],
       checks=checks,
       not_applicable=na,
       notes='All checks: ./check <ID> --tier quick|thorough. Exit 0 ok, 1 violation, 2 machinery failure.')
